@@ -1,3 +1,46 @@
-From Verif Require Import Model.Compile Judge.JF.
-Theorem C04_placeholder : True. Proof. exact I. Qed.
-Print Assumptions C04_placeholder.
+(** Property C04 — Embedded SQL is the user's statement, modulo documented rewrites.
+
+    Proved for all inputs: C04_mutate — source.Mutate, given ANY permutation of
+    edits that sit on disjoint pieces of the text and whose Old text is what
+    stands at their location, returns the text with exactly those pieces
+    exchanged and every other byte unchanged (the hypothesis "Old = the text at
+    Location" is the one the code never checks: the known classes of
+    known_findings.json are the inputs on which sqlc violates it).
+    The full statement on lexemes (C04_full_statement) is decided per case by
+    Judge/JF.v against Spec/SqlLexemes.v, and the transcription is tied to the
+    code by exact correspondence of every compiled query file. *)
+From Coq Require Import Sorting.Permutation.
+From Verif Require Import Model.Compile Spec.SqlLexemes Judge.JQ Judge.J02 Judge.JF Proofs.SourceFacts.
+Open Scope string_scope.
+Open Scope list_scope.
+
+Definition C04_full_statement : Prop :=
+  forall e src raw q,
+    wf_raw raw = true -> c04_class src raw = 0%N ->
+    parse_query e raw src false = Ok (Some q) ->
+    c04_query_ok src raw q = true.
+
+Theorem C04_mutate : forall segs tail edits,
+  segs <> [] -> Forall seg_ok segs ->
+  Permutation edits (edits_of 0 segs) ->
+  mutate (text_of segs tail) edits = Ok (result_of segs tail).
+Proof. exact mutate_segments. Qed.
+Print Assumptions C04_mutate.
+
+(** one edit in isolation *)
+Theorem C04_one_edit : forall p o n t,
+  o <> "" -> n <> "" ->
+  apply_edit (p +++ o +++ t) (mkEdit (zlen p) o n) = Ok (p +++ n +++ t).
+Proof. exact apply_edit_segment. Qed.
+Print Assumptions C04_one_edit.
+
+(** Non-vacuity and the known class: two rewrites in one statement, given in the
+    "wrong" order; and a named parameter spelled with inner spaces garbles the text. *)
+Example C04_mutate_example :
+  mutate "SELECT * FROM t WHERE a = sqlc.arg(x)"
+         [mkEdit 26 "sqlc.arg(x)" "$1"; mkEdit 7 "*" "id, a"] = Ok "SELECT id, a FROM t WHERE a = $1".
+Proof. vm_compute. reflexivity. Qed.
+Example C04_refuted_spelling :
+  mutate "SELECT a FROM t WHERE a = sqlc.arg( x ) AND b" [mkEdit 26 "sqlc.arg(x)" "$1"]
+  = Ok "SELECT a FROM t WHERE a = $1 ) AND b".
+Proof. vm_compute. reflexivity. Qed.
